@@ -41,6 +41,23 @@ CLAIMED["C03"] = ("Partial proof. Proved: generic ECB encrypt/decrypt equals the
  "Trusted: encryptSm4Xts/decryptSm4Xts(GB), encryptSm4Ecb, decryptBlocksChain, mul2/doubleTweaks assembly, cipher.Block/concurrentBlocks interface contracts, alias.InexactOverlap (unsafe), subtle.XORBytes.",
  "DESIGN.md §4 C03")
 
+CLAIMED["C13"] = ("Proof of absence of run-time panics (index, slice, nil dereference, division, conversion, explicit panic, and the panicking preconditions of "
+ "crypto/cipher block modes and constructors) for every input of the functions under contract, with termination measures on the hand-written BER reader: "
+ "pkcs7 readObject/isIndefiniteTermination (BER index arithmetic), the SM9 signature/ciphertext/key parsers and block-mode Decrypt options, pkcs ECB/CBC decryptors, "
+ "cfca DecryptBySM4CBC, SM2 ciphertext parsing/decryption (SM2 curve and legacy paths), ParseEnvelopedPrivateKey, NewPublicKey/NewPrivateKey, and the four padding Unpad functions. "
+ "Sweep contracts (heapnonnil): references read from memory are assumed non-nil and callees without contract are havocked. "
+ "Not covered (listed in DESIGN.md): smx509/pkcs8/pkcs7 top-level parsers built on encoding/asn1 reflection, PEM, CSR/CRL, cfca PKCS#12, wall-clock hangs (PBKDF iteration counts), assembly memory safety.",
+ "Trusted: contracts of golang.org/x/crypto/cryptobyte readers, encoding/asn1.Unmarshal, crypto/cipher modes, crypto/elliptic, math/big, internal/sm2ec and internal/bigmod methods (assumed, /verif/stdlib/std.contracts); "
+ "inputs shorter than 4 GB where a KDF length is derived from the input; package-level error values and tables are not reassigned.",
+ "DESIGN.md §4 C13")
+
+CLAIMED["C07"] = ("Partial proof at the mechanism level: the plain-layout split (C1C3C2/C1C2C3) returns exactly the documented windows; every ciphertext parser and both decryptors "
+ "(SM2-curve and legacy) return a value or an error without panicking for every byte string; the all-zero test of steps A5/B4 is applied to t = KDF(x2||y2) on both sides "
+ "(call-site assertion on the argument of the test); the public point used by encryption is invariant over retries (loop invariant over the point's memory; found D27). "
+ "Not decided: functional round trip Decrypt(Encrypt(m)) == m over the curve arithmetic (scalar multiplication and KDF bytes are abstract here), ASN.1 builder output, layout conversion helpers.",
+ "Trusted: internal/sm2ec point methods, internal/bigmod, crypto/elliptic, randomPoint (assumed frame), cryptobyte readers, sm3.Kdf length contract (proved under C01).",
+ "DESIGN.md §4 C07")
+
 NOT_APPLICABLE = {
 }
 
